@@ -360,8 +360,10 @@ type State struct {
 	dead     bool
 	freshRefs map[string]bool
 	nonzero  map[string]bool
+	shadowKeys map[string][]string
 	shadow   map[string]SVal // engine-side values (handles, closures) stored in cells of objects allocated on this path
 	pendingBoxes []boxInit
+	resultSlices map[string]resultSlice // query result slices whose elements are still w0+i
 	arrDefs  map[string]arrDef
 	batching int
 	pending  []*Obligation
@@ -409,9 +411,17 @@ func (st *State) clone() *State {
 	for k := range st.nonzero {
 		n.nonzero[k] = true
 	}
+	n.shadowKeys = make(map[string][]string, len(st.shadowKeys))
+	for k, v := range st.shadowKeys {
+		n.shadowKeys[k] = v
+	}
 	n.shadow = make(map[string]SVal, len(st.shadow))
 	for k, v := range st.shadow {
 		n.shadow[k] = v
+	}
+	n.resultSlices = make(map[string]resultSlice, len(st.resultSlices))
+	for k, v := range st.resultSlices {
+		n.resultSlices[k] = v
 	}
 	n.arrDefs = make(map[string]arrDef, len(st.arrDefs))
 	for k, v := range st.arrDefs {
@@ -745,6 +755,11 @@ func (st *State) heapSet(key string, v *Term) {
 	st.heap.vers[key] = c
 }
 
+type resultSlice struct {
+	key string // element array key prefix ("E|<elem type>")
+	w0  *Term
+}
+
 // arrDef records that a version of a two-level array is "prev with the inner array at idx replaced by val".
 type arrDef struct{ prev, idx, val *Term }
 
@@ -860,10 +875,17 @@ func (st *State) havoc(patterns []string, except []string) {
 			delete(st.heap.vers, k)
 		}
 	}
+	for b, rs := range st.resultSlices {
+		if ev.matches(rs.key + "|") {
+			delete(st.resultSlices, b)
+		}
+	}
 	for k := range st.shadow {
-		key := k[:strings.LastIndex(k[:strings.Index(k, "@")], "|")]
-		if ev.matches(key) {
-			delete(st.shadow, k)
+		for _, hk := range st.shadowKeys[k] {
+			if ev.matches(hk) {
+				delete(st.shadow, k)
+				break
+			}
 		}
 	}
 }
@@ -951,6 +973,12 @@ func (st *State) load(h *HeapView, a *AddrV) SVal {
 		if v, ok := st.shadow[shadowKey(a)]; ok {
 			return v
 		}
+		// i-th element of a query result slice: the i-th entity object of its block
+		if a.Kind == "elem" && a.Path == "" {
+			if rs, ok := st.resultSlices[a.Base.S]; ok && rs.key == a.Key && !strings.Contains(a.Idx.S, "!b") && !strings.Contains(a.Idx.S, "!q") {
+				return Add(rs.w0, a.Idx)
+			}
+		}
 	}
 	if su, ok := a.Type.Underlying().(*types.Struct); ok && !isOpaque(a.Type) {
 		// field by field, so that each field can come from the shadow memory
@@ -974,6 +1002,18 @@ func (st *State) load(h *HeapView, a *AddrV) SVal {
 func (st *State) store(a *AddrV, v SVal) {
 	// engine-side values keep their identity in the shadow memory; any other store to the same
 	// array drops shadow entries it might alias
+	if a.Kind == "elem" && a.Base != nil {
+		if rs, ok := st.resultSlices[a.Base.S]; ok && rs.key == a.Key {
+			delete(st.resultSlices, a.Base.S)
+		}
+		if !st.freshRefs[a.Base.S] {
+			for b, rs := range st.resultSlices {
+				if rs.key == a.Key && !st.freshRefs[b] {
+					delete(st.resultSlices, b)
+				}
+			}
+		}
+	}
 	sk := shadowKey(a)
 	prefix := a.Key + "|" + a.Path + "@"
 	for k := range st.shadow {
@@ -988,7 +1028,17 @@ func (st *State) store(a *AddrV, v SVal) {
 		if st.shadow == nil {
 			st.shadow = map[string]SVal{}
 		}
+		if st.shadowKeys == nil {
+			st.shadowKeys = map[string][]string{}
+		}
 		st.shadow[sk] = v
+		if _, ok := st.shadowKeys[sk]; !ok {
+			var hks []string
+			for _, l := range st.e.leaves(a.Type) {
+				hks = append(hks, st.cellKey(a, l))
+			}
+			st.shadowKeys[sk] = hks // never mutated afterwards: shared between cloned states
+		}
 	} else {
 		delete(st.shadow, sk)
 	}
